@@ -58,6 +58,8 @@ package config_parser
 //@   dyncalls noeffect
 //@   modifies *
 //@   at call Walk#1 assert errorListener.ErrorBuilder.Len() == 0
+// sections are handed back only when nothing was reported during the walk either (returns in source order)
+//@   at return 3 assert errorListener.ErrorBuilder.Len() == 0 && err == nil
 
 //@ func (*Walker).parseDeclaration
 //@   requires w != nil
